@@ -28,6 +28,16 @@ def required : List (String × String × String × String × List String) := [
   ("dro", "Ambiguity", "probset", "ValueError", ["model", "pro_model"]),
   ("lp", "DecRoConstr", "forall", "ValueError", ["model", "rand_model"]),
   ("math", "", "maxof", "ValueError", ["model", "this_model", "top"]),
+  -- (guards added by the repairs c46f067 / 4400c91 / e826511: foreign pieces, ambiguity sets, scenarios, atom operands)
+  ("dro", "Model", "st", "ValueError", ["piece", "model", "vt_model"]),
+  ("dro", "Model", "st", "ValueError", ["piece", "dec_model", "rand_model", "vt_model", "sup_model"]),
+  ("dro", "Model", "minsup", "ValueError", ["ambset", "model"]),
+  ("dro", "Model", "maxinf", "ValueError", ["ambset", "model"]),
+  ("lp", "DecLinConstr", "forall", "ValueError", ["ambset", "model", "top"]),
+  ("lp", "DecVar", "evtadapt", "ValueError", ["ambset", "dro_model", "model"]),
+  ("lp", "Convex", "__add__", "ValueError", ["model", "other"]),
+  ("lp", "DecAffine", "expcone", "ValueError", ["model", "x", "Vars"]),
+  ("lp", "DecAffine", "expcone", "ValueError", ["model", "z", "Vars"]),
   -- an objective cannot be redefined; objective expressions must be scalar
   ("ro", "Model", "min", "SyntaxError", ["obj"]), ("ro", "Model", "max", "SyntaxError", ["obj"]),
   ("ro", "Model", "minmax", "SyntaxError", ["obj"]), ("ro", "Model", "maxmin", "SyntaxError", ["obj"]),
